@@ -12,8 +12,9 @@ func init() {
 		in := fs.String("in", "", "cases ndjson")
 		out := fs.String("out", "", "trace ndjson")
 		keep := fs.String("keep", "", "directory to keep the OBJ texts in (optional)")
+		budget := fs.Int("budget", 0, "stop (with a stop line) when the run has taken this many seconds; 0: never")
 		_ = fs.Parse(args)
-		return objstl.RunObjCases(*in, *out, *keep)
+		return objstl.RunObjCases(*in, *out, *keep, *budget)
 	}
 	commands["obj-random"] = func(args []string) error {
 		fs := flag.NewFlagSet("obj-random", flag.ExitOnError)
@@ -34,8 +35,9 @@ func init() {
 		in := fs.String("in", "", "cases ndjson")
 		out := fs.String("out", "", "trace ndjson")
 		keep := fs.String("keep", "", "directory to keep the STL files in (optional)")
+		budget := fs.Int("budget", 0, "stop (with a stop line) when the run has taken this many seconds; 0: never")
 		_ = fs.Parse(args)
-		return objstl.RunStlCases(*in, *out, *keep)
+		return objstl.RunStlCases(*in, *out, *keep, *budget)
 	}
 	commands["stl-random"] = func(args []string) error {
 		fs := flag.NewFlagSet("stl-random", flag.ExitOnError)
@@ -43,8 +45,9 @@ func init() {
 		seed := fs.Int64("seed", 1, "seed")
 		nsw := fs.Int("nsw", 10, "seeded mesh cases")
 		nsr := fs.Int("nsr", 10, "seeded record-list cases")
+		nsb := fs.Int("nsb", 0, "seeded record-list cases for the record-level API (stl.Read / stl.Write)")
 		maxtris := fs.Int("maxtris", 200, "max triangles")
 		_ = fs.Parse(args)
-		return objstl.GenStlRandom(*out, *seed, *nsw, *nsr, *maxtris)
+		return objstl.GenStlRandom(*out, *seed, *nsw, *nsr, *nsb, *maxtris)
 	}
 }
